@@ -211,7 +211,7 @@ func (g *c16Gen) tagFor(i int, usedTags map[string]bool, embedded bool) string {
 	return strings.Join(parts, " ")
 }
 
-// kinds that run into the listed findings P01 and P13 are drawn less often, so that most types exercise
+// kinds that run into the listed finding P01 (and, before its repair, P13) are drawn less often, so that most types exercise
 // every entry point to the end
 var c16ProneKinds = map[string]bool{"embedded-with-methods": true, "embedded-named-scalar": true, "embedded-named-slice": true}
 
@@ -356,6 +356,12 @@ type C16Elems struct {
 	PItems []*C16Item
 	ByName map[string]C16Item
 }
+// an embedded struct that itself embeds a user-defined scalar: the scalar's flattened name is empty (P18, repaired together with P13)
+type C16Inner struct{ NInt8 }
+type C16EmbEmb struct {
+	Addr string
+	C16Inner
+}
 type C16Flat struct {
 	B          bool
 	S          string
@@ -375,7 +381,7 @@ type C16Flat struct {
 	Skip       int `dials:"-"`
 }
 
-var c16Static = []reflect.Type{rt[C16Server](), rt[C16Embed](), rt[C16Ptrs](), rt[C16Nested](), rt[C16Flat](), rt[C16Elems]()}
+var c16Static = []reflect.Type{rt[C16Server](), rt[C16Embed](), rt[C16Ptrs](), rt[C16Nested](), rt[C16Flat](), rt[C16Elems](), rt[C16EmbEmb]()}
 
 // ---------- feature walker (what the known-finding predicates are written over) ----------
 
